@@ -1,1 +1,12 @@
 import Martian.Props.C09
+open Martian.Props.C09
+#print axioms ledger
+#print axioms never_exceeds_grant
+#print axioms every_emission_fits
+#print axioms frame_within_max
+#print axioms emitted_was_accepted
+#print axioms credit_returned_exact
+#print axioms credit_is_flow_controlled_length
+#print axioms no_eligible_frame_stranded
+#print axioms facts_flow_constants
+#print axioms facts_credit_uses_frame_header_length
